@@ -41,7 +41,8 @@ theorem c01_source_facts :
     countOf "set cache.audioSequenceHeader.Timestamp" IpcHub.Gen.progFlvPushTo = 0 ∧
     -- "unmodified": the delivery side never writes through the shared packet / tag object
     IpcHub.Gen.mutPacketWrite = [] ∧ IpcHub.Gen.mutTcpConsume = [] ∧ IpcHub.Gen.mutUdpConsume = [] ∧
-    IpcHub.Gen.mutWspConsume = [] ∧ IpcHub.Gen.mutFlvWriteTag = [] ∧ IpcHub.Gen.mutFlvWriteTagFn = [] := by
+    IpcHub.Gen.mutWspConsume = [] ∧ IpcHub.Gen.mutMulticastConsume = [] ∧ IpcHub.Gen.mutHttpFlvConsume = [] ∧
+    IpcHub.Gen.mutWsFlvConsume = [] ∧ IpcHub.Gen.mutFlvWriteTag = [] ∧ IpcHub.Gen.mutFlvWriteTagFn = [] := by
   decide
 
 /-- Shape: for every consumer, what it has received plus what is still queued for it is exactly
